@@ -111,6 +111,22 @@ def run(ck):
                 pool = [base + t for t in ('A', 'a', 'B', 'b', 'AA', 'Aa', 'aA', 'aa', 'C', 'c')]
                 names = [pool[i % len(pool)] + ('' if i < len(pool) else str(i)) for i in range(len(seqs))]
                 fam = 'case-only-names'
+            if k % 30 == 21:
+                # more than 64 Ki residues of non-uniform composition: plain nucleotide records and records rich in ambiguity codes
+                # (which the kind decision counts as amino-acid letters) - whatever is decided for the file must not depend on
+                # which records come first (the decision is taken before the sort)
+                kind = 'dna'
+                root = gen.rand_seq(rng, gen.DNA, 1000)
+                plain = [gen.mutate(rng, root, gen.DNA, 6, 2) for _ in range(rng.choice([60, 70]))]
+                amb = []
+                for _ in range(rng.choice([14, 20])):
+                    x = list(gen.mutate(rng, root, gen.DNA, 6, 2))
+                    for q in range(len(x)):
+                        if rng.chance(2, 5): x[q] = rng.choice('RYKMSW')
+                    amb.append(''.join(x))
+                seqs = amb + plain
+                names = ['u%03d' % i for i in range(len(seqs))]
+                fam = 'mixed-composition>64Ki'; big = True
             ty = rng.choice([0, 1, 2, 5] if kind == 'dna' else [3, 4, 5])
             thr = rng.choice([1, 8])
             recs = list(zip(names, seqs))
@@ -124,6 +140,8 @@ def run(ck):
                     order = orders[3]
                 if p == 1 and fam == 'late-punct>50':
                     order = list(range(len(recs)))[::-1]
+                if p == 1 and fam == 'mixed-composition>64Ki':
+                    order = list(range(len(recs)))[::-1]       # the ambiguity-rich records first in one order, last in the other
                 orders.append(order)
                 txt = gen.fasta([recs[i][0] for i in order], [recs[i][1] for i in order])
                 ids.append(fr.add([txt], 'fasta', thr, ty, tag=k))
